@@ -81,6 +81,7 @@ func runC04Case(c *Ctx, kind string, input []rune) {
 }
 
 func propC04(c *Ctx) {
+	propScaleTokenizers(c, "C04")
 	kinds := append([]string{"g", "e", "m"}, csvKinds(c)...)
 	// characters that tempt a "clean-up" at the edges of the input: byte order mark, NUL, line and paragraph
 	// separators, U+0100 (first character above the direct table), the last BMP characters
@@ -219,6 +220,7 @@ var allOpts = func() []int {
 }()
 
 func propC12(c *Ctx) {
+	propScaleTokenizers(c, "C12")
 	kinds := []string{"g", "e", "m", "c:44:34"}
 	alpha := []rune{'a', '1', ' ', '\n', '\r', '"', '/', '*', '-', '{', '}', ',', 0x4e16}
 	maxL := 3
@@ -307,6 +309,7 @@ func runC15Case(c *Ctx, kind string, optSets []int, input []rune) {
 }
 
 func propC15(c *Ctx) {
+	propScaleTokenizers(c, "C15")
 	kinds := []string{"g", "e", "m", "c:44:34"}
 	maxL := 2
 	if c.Thorough {
